@@ -69,13 +69,19 @@ def builders(ctx):
             flav = kw.get("flav", rng.choice(gen.FLAVOURS))
             kind = kw.get("kind", rng.choice(kinds))
             first, nb = hist.geometry(kind)
-            L = hist.build_history(ctx, flav, kind=kind, nops=kw.get("nops", 45), big=kw.get("big", False), dirs=kw.get("dirs", True))
-            return L, first, nb, {"flavour": flav, "kind": kind, "big": kw.get("big", False)}
+            names = None
+            if kw.get("collide"):
+                # every name in one hash chain: entries are created and deleted behind entries that are open
+                names = gen.colliding_names(rng, flav, rng.randrange(72), 7)
+            L = hist.build_history(ctx, flav, kind=kind, nops=kw.get("nops", 45), big=kw.get("big", False), dirs=kw.get("dirs", True), names=names)
+            return L, first, nb, {"flavour": flav, "kind": kind, "big": kw.get("big", False), "one_hash_chain": bool(names)}
         return (label, fn)
     for i in range(n):
         flav = gen.FLAVOURS[i % 6]
         if i % 3 == 0:
             out.append(mk("mixed-big", flav=flav, big=True, nops=40))
+        elif i % 3 == 1:
+            out.append(mk("mixed-one-hash-chain", flav=flav, collide=True, dirs=(i % 2 == 0)))
         else:
             out.append(mk("mixed", flav=flav))
 
@@ -101,7 +107,68 @@ def builders(ctx):
         return L, 0, 1760, {"flavour": flav, "size": size, "size2": size2}
     for i in range(12 if ctx.tier == "quick" else 300):
         out.append(("alignment", align))
-    return out
+
+    # transition sweep: (how the handle arrived at a position: fresh open / seek / read up to it / write up to it) x (where the
+    # position is: block edge, 72-block edge, EOF, beyond) x (what comes next: write / read / truncate / flush), on a reopened file
+    def transitions(ctx):
+        flav = rng.choice(gen.FLAVOURS)
+        bs = 512 if flav & 1 else 488
+        k = rng.choice([1, 2, 71, 72, 73, 73, 74, 143, 144, 145])
+        size = max(1, k * bs + rng.choice([-1, 0, 0, 1]))
+        A = hexs(b"A")
+        L = gen.dev_create("DD", flav) + ["mountdev 0", "mount 0 0"]
+        if rng.random() < 0.5:
+            L += ["open 1 - %s w" % hexs(b"frag"), "write 1 3 %d" % (2 * bs + 7), "close 1"]
+        L += ["open 0 - %s w" % A, "write 0 7 %d" % size, "close 0"]
+        if "frag" in " ".join(L) or True:
+            L += ["rm - %s" % hexs(b"frag")] if any("66726167" in l for l in L) else []
+        L += ["open 0 - %s rw" % A]
+        pos = 0
+
+        def pos_choice(limit):
+            c = [0, bs - 1, bs, bs + 1, 71 * bs, 72 * bs - 1, 72 * bs, 72 * bs + 1, 73 * bs, 144 * bs, limit - bs, limit - 1, limit, limit // 2]
+            return rng.choice([x for x in c if 0 <= x <= limit])
+        seq = []
+        for _ in range(rng.randint(1, 4)):
+            arrive = rng.choice(["none", "seek", "read", "write"])
+            if arrive != "none":
+                p = pos_choice(size)
+                if arrive == "seek":
+                    L += ["seek 0 %d" % p]
+                else:
+                    start = max(0, p - rng.choice([1, bs, 2 * bs, p if p else 1]))
+                    L += ["seek 0 %d" % start] if start != pos else []
+                    if p > start:
+                        L += ["%s 0 %s%d" % (arrive, "13 " if arrive == "write" else "", p - start)]
+                pos = p
+            op = rng.choice(["write", "write", "read", "trunc", "flush"])
+            if op == "write":
+                n = rng.choice([1, bs - 1, bs, bs + 1, 2 * bs, 72 * bs, 73 * bs + 5, max(1, size - pos), size - pos + 1, 2 * size - pos + 1])
+                n = max(1, min(n, 160 * bs))
+                L += ["write 0 %d %d" % (17 + len(seq), n)]
+                pos += n
+                size = max(size, pos)
+            elif op == "read":
+                n = rng.choice([1, bs, 2 * bs, size])
+                L += ["read 0 %d" % n]
+                pos = min(size, pos + n)
+            elif op == "trunc":
+                t = rng.choice([pos_choice(size), size + bs, size + 1])
+                L += ["trunc 0 %d" % t]
+                size = t
+                pos = min(pos, size)
+            else:
+                L += ["flush 0"]
+            seq.append((arrive, op))
+        L += ["stat 0", "seek 0 0", "read 0 %d" % (size + bs), "close 0", "free", "dump $W/img1", "spectree",
+              "umount", "umountdev", "mountdev 0", "mount 0 0", "open 0 - %s r" % A, "read 0 %d" % (size + bs), "close 0", "umount", "umountdev"]
+        return L, 0, 1760, {"flavour": flav, "blocks": k, "transitions": seq}
+    for i in range(30 if ctx.tier == "quick" else 900):
+        out.append(("transitions", transitions))
+    # the other history-based checks take a prefix of this list: mix the kinds
+    order = list(range(len(out)))
+    rng.shuffle(order)
+    return [out[i] for i in order]
 
 
 def run(ctx):
@@ -111,7 +178,8 @@ def run(ctx):
         proof["problems"].append("translator could not translate: %s" % tf)
     leaf_geometry(ctx, proof)
     rule = ("leaf geometry calls at every alignment around 488/512 and multiples of 72 blocks plus random positions; random interleavings over up to 4 handles and "
-            "10 names with remount/dump points, files up to 40 blocks (mixed) or up to 145 blocks (mixed-big), and boundary alignment sweeps with fragmentation; "
+            "10 names with remount/dump points, files up to 40 blocks (mixed) or up to 145 blocks (mixed-big), all names in one hash chain (mixed-one-hash-chain), boundary alignment sweeps with "
+            "fragmentation, and transition sweeps on a reopened file (arrive at a block / 72-block / EOF edge by seek, read or write, then write / read / truncate / flush); "
             "non-trivial = history contains at least one write and one read/seek/truncate; distinct = distinct script")
     nt = lambda L, r: any(l.startswith("write") for l in L) and any(l.split()[0] in ("read", "seek", "trunc") for l in L if l.split())
     return histcheck.explore(ctx, proof, {"C01"}, builders(ctx), rule,
